@@ -31,6 +31,7 @@ PARSEERR = ['ParseErrOffset', 'ParseErrPointerOffset', 'ParseErrSourceOffset', '
 CMP = [sp['id'] for sp in rs2lean.FUNCS if sp.get('cmpimpl')]
 DOORS = ['Validate', 'PointerParse', 'PointerBufParse', 'BufTryFromString', 'BufTryFromStr', 'BufFromStr']
 ITER = ['PointerTokens', 'TokensNext', 'ComponentsFrom', 'ComponentsNext']
+DISPLAY = ['DisplayToken', 'DisplayPointer', 'DisplayPointerBuf', 'DisplayIndex']
 BUILD = ['GetUsize', 'First', 'Last', 'WithTrailingToken', 'WithLeadingToken', 'Concat']
 BUF = ['FromTokens', 'PushFront', 'PushBack', 'PopBack', 'Append', 'Clear', 'PopFront', 'Replace']
 def _u(*ls):
@@ -44,11 +45,11 @@ PROP_FUNCS = {
     'C01': _u(['ValidateBytes'], DOORS, TOKEN, SLICE, POINTER, BUF, BUILD),
     'C11': _u(BUF, ['IsRoot', 'Count']),
     'C02': _u(['ValidateBytes'], DOORS), 'C14': _u(['ValidateBytes'], PARSEERR, DOORS),
-    'C05': _u(WALKS, ['IndexFromStr', 'ForLen'], TOIDX), 'C09': _u(WALKS, DELETE, EXPAND, ASSIGN, ['IndexFromStr', 'ForLen'], TOIDX), 'C15': _u(WALKS, ASSIGN, LABELS, ['IndexFromStr', 'ForLen'], TOIDX),
-    'C08': _u(WALKS, DELETE, ['IndexFromStr', 'ForLen'], TOIDX), 'C10': _u(WALKS, DELETE, EXPAND, ASSIGN, ['IndexFromStr', 'ForLen'], TOIDX),
-    'C06': _u(EXPAND, ASSIGN, ['IndexFromStr', 'ForLenIncl'], TOIDX), 'C07': _u(EXPAND, ASSIGN, ['IndexFromStr', 'ForLenIncl'], TOIDX),
-    'C17': CMP,
-    'C03': TOKEN, 'C04': _u(ACCESS, ['FromTokens'], BUILD, ['PushBack', 'PushFront', 'Append'], ITER), 'C12': _u(SLICE, SPLITS, ['GetUsize']), 'C13': _u(RELS, ['Append', 'Concat']), 'C16': INDEX,
+    'C05': _u(WALKS, ['IndexFromStr', 'ForLen'], TOIDX), 'C09': _u(WALKS, DELETE, EXPAND, ASSIGN, ['IndexFromStr', 'ForLen'], TOIDX, ['DisplayToken']), 'C15': _u(WALKS, ASSIGN, LABELS, ['IndexFromStr', 'ForLen'], TOIDX),
+    'C08': _u(WALKS, DELETE, ['IndexFromStr', 'ForLen'], TOIDX), 'C10': _u(WALKS, DELETE, EXPAND, ASSIGN, ['IndexFromStr', 'ForLen'], TOIDX, ['DisplayToken']),
+    'C06': _u(EXPAND, ASSIGN, ['IndexFromStr', 'ForLenIncl'], TOIDX, ['DisplayToken']), 'C07': _u(EXPAND, ASSIGN, ['IndexFromStr', 'ForLenIncl'], TOIDX, ['DisplayToken']),
+    'C17': CMP, 'C18': DISPLAY,
+    'C03': _u(TOKEN, ['DisplayToken']), 'C04': _u(ACCESS, ['FromTokens'], BUILD, ['PushBack', 'PushFront', 'Append'], ITER), 'C12': _u(SLICE, SPLITS, ['GetUsize']), 'C13': _u(RELS, ['Append', 'Concat']), 'C16': _u(INDEX, ['DisplayIndex']),
     'C19': _u(TOKEN, SLICE, SPLITS, RELS, ACCESS),
 }
 TRANSPORT_MEMBERS = {'TransportValidate': ['ValidateBytes'], 'TransportToken': TOKEN, 'TransportSlice': SLICE, 'TransportIndex': INDEX,
@@ -91,6 +92,8 @@ TIE_THEOREMS = {
     'BufTryFromString': ['Jp.Tie.buf_try_from_string_eq'], 'BufTryFromStr': ['Jp.Tie.buf_try_from_str_eq'], 'BufFromStr': ['Jp.Tie.buf_from_str_eq'],
     'PointerTokens': ['Jp.Tie.pointer_tokens_iter_eq'], 'TokensNext': ['Jp.Tie.tokens_next_eq'], 'ComponentsFrom': ['Jp.Tie.components_from_eq'],
     'ComponentsNext': ['Jp.Tie.components_next_eq'],
+    'DisplayToken': ['Jp.Tie.display_token_eq'], 'DisplayPointer': ['Jp.Tie.display_pointer_eq'], 'DisplayPointerBuf': ['Jp.Tie.display_pointer_buf_eq'],
+    'DisplayIndex': ['Jp.Tie.display_index_eq'],
     'ParseIndex': ['Jp.Tie.parse_index_eq'], 'ResolveJson': ['Jp.Tie.resolve_json_eq', 'Jp.Tie.resolve_json_loop'],
     'ResolveMutJson': ['Jp.Tie.resolve_mut_json_eq'], 'ResolveToml': ['Jp.Tie.resolve_toml_eq'], 'ResolveMutToml': ['Jp.Tie.resolve_mut_toml_eq'],
 }
